@@ -132,7 +132,8 @@ impl Parser {
             return;
         }
         self.shift_mode = shift_mode;
-        for y in 0..buf.get_height() {
+        // only rows that exist carry characters: the height may merely be declared (SAUCE)
+        for y in 0..buf.get_line_count().min(buf.get_height()) {
             for x in 0..buf.get_width() {
                 let mut ch = buf.get_char((x, y));
                 ch.set_font_page(usize::from(shift_mode));
